@@ -207,6 +207,24 @@ var nameSchemes = [][]string{
 	{"Item", "item", "ITEM", "iTem", "Item2", "item2", "x6", "x7", "x8", "x9"},
 }
 
+// plain: default spelling, keyword position, target shape and names, no chain
+func (g *gspec) plain() bool {
+	if len(g.Chain) > 0 || g.Names != 0 || g.EntrySpell != spShort {
+		return false
+	}
+	for _, e := range g.Edges {
+		if e.Spell != spShort || e.Form != formProperties {
+			return false
+		}
+	}
+	for _, s := range g.Shape {
+		if s != 0 {
+			return false
+		}
+	}
+	return true
+}
+
 func (g *gspec) nodeName(i int) string { return nameSchemes[g.Names][i] }
 
 func (g *gspec) nodeDocURL(i int) string {
@@ -579,8 +597,9 @@ func (g *gspec) build() *built {
 					"get", obj("parameters", arr(obj("name", "q", "in", "body", "schema", n0(from))),
 						"responses", obj("200", resp(from), "default", plain)),
 				)
-				if from == rootURL {
-					// the shared parameter / response of the root, included by reference
+				if from == rootURL && g.plain() {
+					// the shared parameter / response of the root, included by reference (in the graphs that vary
+					// nothing but topology and placement: the other dimensions do not meet this position)
 					pi["post"] = obj("parameters", arr(obj("$ref", "#/parameters/P")), "responses", obj("200", obj("$ref", "#/responses/R")))
 				}
 				return pi
